@@ -413,9 +413,19 @@ func (group *Group) delIn() {
 		group.psPubDumpFile.Close()
 		group.psPubDumpFile = nil
 	}
+	// 将合并发送缓冲中残留的数据发送给当前的sub session，避免残留到下一个输入流
+	if group.rtmpMergeWriter != nil {
+		group.rtmpMergeWriter.Flush()
+	}
 	group.rtmpGopCache.Clear()
 	group.httpflvGopCache.Clear()
 	group.httptsGopCache.Clear()
 	group.sdpCtx = nil
 	group.patpmt = nil
+
+	// 输入流的编码信息不残留到下一个输入流
+	group.stat.AudioCodec = ""
+	group.stat.VideoCodec = ""
+	group.stat.VideoWidth = 0
+	group.stat.VideoHeight = 0
 }
